@@ -50,6 +50,8 @@ def build_jobs(tier):
                 cases.append({"op": "join", "type": ty, "nkeys": nk, "resid": False, "gl": gl, "gr": gr})
     for g in small + [1000, 1001]:
         for ks in KEYSETS:
+            if not ks and not groups[g]:
+                continue        # agg without keys vs hashagg([]) is only required to agree on non-empty inputs (one row vs none)
             for ag in AGGS:
                 cases.append({"op": "agg", "keys": ks, "aggs": ag, "g": g})
         for od in ORDERS:
